@@ -7,7 +7,7 @@
    The guards loess_rejects / spline_*_rejects / pf_* and the kernel skeleton list come from
    gen/GenKernels.v, regenerated from /repo on every run. *)
 From Coq Require Import ZArith List Bool String.
-From PB Require Import lib.PySlice C05.PyLen C05.Mon C05.Model C05.Callers C05.Sigs gen.GenKernels C05.Final C05.CallerProofs C05.State C05.StateFinal.
+From PB Require Import lib.PySlice C05.PyLen C05.Mon C05.Model C05.Callers C05.Sigs gen.GenKernels C05.Final C05.CallerProofs C05.State C05.StateFinal C05.Fnz C05.ProofsFnz.
 Import ListNotations.
 Open Scope Z_scope.
 
@@ -260,6 +260,22 @@ Example C05_stale_basis_example :
          [(400, [ASpline 10 3; ARaise]); (60, [ASpline 10 3; AKernel])] (init_state None))
   = [(10, 3, 400, 60, 60)].
 Proof. exact stale_basis_example_final. Qed.
+
+
+(* ---- corner_cutting without a hypothesis on the index array ---- *)
+(* np.flatnonzero (positions of True, in order) returns strictly increasing positions inside the mask, for EVERY mask *)
+Theorem C05_flatnonzero_sorted : forall (mask : list bool) k, 0 <= k < lenz (flatnonzero mask) ->
+    0 <= nthz (flatnonzero mask) k 0 < lenz mask /\
+    (k + 1 < lenz (flatnonzero mask) -> nthz (flatnonzero mask) k 0 < nthz (flatnonzero mask) (k + 1) 0).
+Proof. exact flatnonzero_final. Qed.
+Print Assumptions C05_flatnonzero_sorted.
+
+(* hence _quadratic_bezier_spline(self.x, y, np.flatnonzero(mask)) is index-safe for every mask (also all False / one True:
+   the kernel raises its ValueError), every data and every argmin outcome *)
+Theorem C05_corner_cutting_mask_safe : forall (mask : list bool) (o : list bool),
+  all_okb (logof (corner_cutting_mask_call mask o)) = true.
+Proof. exact corner_cutting_mask_final. Qed.
+Print Assumptions C05_corner_cutting_mask_safe.
 
 Example C05_loess_guard_nonvacuous : loess_rejects 4 1 4 = false /\ 0 <= 1.
 Proof. exact loess_guard_nonvacuous. Qed.
